@@ -949,6 +949,11 @@ func genReq(r *common.Rng) reqCase {
 			c.query = append(c.query, qparam{key: "local", class: 'e'})
 		}
 	}
+	if r.Chance(1, 60) {
+		// a malformed escape in the value of a parameter that is not a pin option (the handlers that parse pin
+		// options refuse the whole query string, the others lose the pair)
+		c.query = append(c.query, qparam{key: []string{"local", "filter", "whatever"}[r.Intn(3)], class: 'g'})
+	}
 	if t.opts == "filterS" {
 		switch weighted(r, 5, 1, 1, 3) {
 		case 0:
